@@ -391,8 +391,27 @@ class Engine:
         self.nprune = 0
         self.cur_fn = None
         self.prange_ctx = None
+        self.bound_ids = {}
+        self.pending_defs = []
+        self.def_instances = {}
 
     # ---------------- infrastructure
+    def mentions_bound(self, terms):
+        if not self.bound_ids:
+            return False
+        seen = set()
+        stack = list(terms)
+        while stack:
+            x = stack.pop()
+            i = x.get_id()
+            if i in seen:
+                continue
+            seen.add(i)
+            if i in self.bound_ids:
+                return True
+            stack.extend(x.children())
+        return False
+
     def mod(self, relpath):
         if relpath not in self.mods:
             self.mods[relpath] = ModInfo(self.root, relpath)
@@ -731,9 +750,15 @@ class Engine:
     def compare(self, op, a, b, n):
         if isinstance(op, (ast.Is, ast.IsNot)):
             if isinstance(a, (SV, Arr)) or isinstance(b, (SV, Arr)):
-                r = False if (a is None or b is None) else None
-                if r is None:
+                other = b if isinstance(a, (SV, Arr)) else a
+                if other is None or (isinstance(other, bool) and (isinstance(a, Arr) or isinstance(b, Arr))):
+                    r = False
+                elif isinstance(a, Arr) and isinstance(b, Arr):
+                    r = a is b
+                else:
                     raise Unsupported('identity of symbolic values')
+            elif isinstance(a, Builtin) and isinstance(b, Builtin):
+                r = a.name == b.name
             else:
                 r = a is b
             return r if isinstance(op, ast.Is) else (not r)
@@ -803,18 +828,9 @@ class Engine:
         raise Unsupported('toreal ' + v.ty)
 
     def bv2real(self, v):
-        """integer value of a bit-vector as a real: through the uninterpreted-but-defined function i2r_<ty>.
-        Congruence is enough for decode equalities; the defining axiom is added on demand by lemmas."""
+        """exact integer value of a bit-vector as a real (z3 bv2int; decided by z3 5.1's int-blasting)"""
         bits, signed = BVT[v.ty]
-        # normalise to 64-bit signed/unsigned carrier so that equal integer values of different widths coincide
-        if bits < 64:
-            t = z3.SignExt(64 - bits, v.t) if signed else z3.ZeroExt(64 - bits, v.t)
-            signed_c = True    # every value of a narrower type fits in int64
-        else:
-            t = v.t
-            signed_c = signed
-        f = z3.Function('i2r_s64' if signed_c else 'i2r_u64', z3.BitVecSort(64), z3.RealSort())
-        return f(simp(t))
+        return z3.ToReal(z3.BV2Int(v.t, signed))
 
     def bvcast(self, v, ty):
         if v.ty == ty:
@@ -1078,12 +1094,18 @@ class Engine:
             return h(self, st, f.obj, args, kw, n)
         if isinstance(f, FnVal):
             return self.call_fn(f, args, kw, st, n)
-        if callable(f) and self.specmode:
+        if callable(f) and self.specmode and not getattr(f, '_pyvc_ghost', False):
             return f(*args, **kw)
         if callable(f) and getattr(f, '__self__', None) is not None and isinstance(f.__self__, (list, dict)):
             return f(*args, **kw)
         if callable(f) and getattr(f, '_pyvc_ghost', False):
-            return f(*args, **kw)
+            r = f(*args, **kw)
+            if self.pending_defs:
+                for inst in self.pending_defs:
+                    if not any(inst is x for x in st.pc[-40:]):
+                        st.pc.append(inst)
+                self.pending_defs = []
+            return r
         raise Unsupported('call of ' + repr(f))
 
     def cast(self, v, dt, st, n):
@@ -1513,6 +1535,13 @@ class Engine:
             else:
                 self.check_footprint(st, tv, r, t, 'w')
                 self.sto(st, tv, r, self.store_cast(v, tv, st, node))
+        elif isinstance(t, ast.Attribute) and t.attr == 'shape':
+            tv = self.ev(t.value, st)
+            if isinstance(tv, Arr) and isinstance(v, tuple) and len(v) == 2 and v[0] == -1 and tv.ndim == 2 \
+                    and conc_int(tv.shape[1]) == v[1]:
+                self.note_assumed('assigning shape (-1, k) to an (N, k) array view is a no-op')
+                return
+            raise Unsupported('shape assignment')
         else:
             raise Unsupported('assignment target ' + type(t).__name__)
 
@@ -1789,6 +1818,43 @@ class GhostCtx:
 
     def axiom(self, f):
         self.eng.axioms.append(f)
+
+    def define(self, name, argtys, retty, body, quantified=False):
+        """opaque ghost function with a definitional axiom: quantified invariants mention only the symbol,
+        ground instances of the definition are found by e-matching on the pattern name(args)"""
+        F = z3.Function(name, *[sort_of(t) for t in argtys], sort_of(retty))
+        vs = [z3.Const(f'{name}_a{k}', sort_of(t)) for k, t in enumerate(argtys)]
+        rhs = body(*[SV(v, t) for v, t in zip(vs, argtys)])
+        rhs = self.eng.tosv(rhs)
+        if quantified:
+            self.eng.axioms.append(z3.ForAll(vs, F(*vs) == rhs.t, patterns=[F(*vs)]))
+        eng = self.eng
+
+        def call(*args):
+            ts = []
+            for a, t in zip(args, argtys):
+                a = eng.tosv(a)
+                if a.ty != t:
+                    if t == 'real':
+                        a = eng.toreal(a)
+                    elif is_bv(t):
+                        a = eng.bvcast(a, t) if is_bv(a.ty) else eng.bvcast(eng.int_to_bv_literal(a), t)
+                    elif t == 'int' and a.ty == 'bool':
+                        a = SV(I(a), 'int')
+                    else:
+                        raise ContractError(f'ghost {name}: argument of type {a.ty}, expected {t}')
+                ts.append(a.t)
+            app = F(*ts)
+            if not eng.mentions_bound(ts):
+                # ground application: add the instance of the definition (sound anywhere: F is a pure function)
+                inst = app == z3.substitute(rhs.t, *zip(vs, ts))
+                key = app.get_id()
+                if key not in eng.def_instances:
+                    eng.def_instances[key] = inst
+                eng.pending_defs.append(inst)
+            return SV(app, retty)
+        self.fn(name, call)
+        return F
 
     def unfolder(self, name, gen):
         self.eng.unfolders[name] = gen
